@@ -131,6 +131,16 @@ func attrVal(a []Attr, typ string) string {
 	return ""
 }
 
+// statementSilent lists checks of the library (all named in DESIGN.md's operator list)
+// that the TEXT of the property does not state as a rule. Documents that break only these
+// are generated and exercised (no crash, level invariant) but no accept/reject verdict is
+// asserted for them; removing an entry makes the corresponding operator decisive.
+var statementSilent = map[string]string{
+	"override-unknown-type":   "the statement constrains overrides (non-skip level, not integrity, skip only for revocation) but does not say the type must be known",
+	"override-unknown-action": "likewise for the action",
+	"scope-none":              "the statement says what every scope must be, not that there must be one",
+}
+
 // Verdict is what the model says about a document.
 type Verdict struct {
 	Violations []string // sorted, distinct names of violated rules (= operator names); empty = well-formed
@@ -310,7 +320,16 @@ func judge(d *Doc) Verdict {
 			bad = append(bad, "two-globals")
 		}
 	}
-	return Verdict{Violations: uniq(bad), Silent: uniq(silent)}
+	// checks the library makes that the statement does not spell out are not judged
+	kept := bad[:0]
+	for _, b := range bad {
+		if _, unstated := statementSilent[b]; unstated {
+			silent = append(silent, b)
+		} else {
+			kept = append(kept, b)
+		}
+	}
+	return Verdict{Violations: uniq(kept), Silent: uniq(silent)}
 }
 
 // ---------- rendering into the library's types and into JSON ----------
